@@ -242,7 +242,7 @@ func (l *listener) doExtract(kw Keyword, fnName string, list parser.IExpressionL
 		return
 	}
 	maxArgs := kw.MaxArgIndex()
-	count := list.GetChildCount()
+	count := len(list.AllExpression()) // 参数个数(GetChildCount 还包含逗号)
 	if maxArgs > count {
 		return
 	}
